@@ -174,6 +174,26 @@ def make_unit(iset, cube_name, cube_pred, memarch='PMSA', nregions=1, props=('C1
         ok18 = eng.oblige('safe.host', '%s: step completes or takes an architectural exception' % tag, True)
         ok18.props = ['C18']
         if exc is not None:
+            # stopped at a mock hook (NotImplementedError): what happened up to there still has to respect the range,
+            # privilege-confinement and ownership obligations
+            cpsr1 = final['cpsr']
+            rng = [land(v >= 0, v <= 0xFFFFFFFF) if sym.is_intlike(v) else False for k, v in final.items()
+                   if k.startswith('R.') or k.startswith('spsr_') or k in ('cpsr', 'elr_hyp')]
+            ob = eng.oblige('inv.range', '%s: registers, SPSRs, PC in 0..2^32-1 when a mock hook stops the step' % tag, land(*rng))
+            ob.props = ['C10']
+            if sym.is_intlike(cpsr1):
+                same = [bits(cpsr1, 4, 0) == ST.USR, bits(cpsr1, 8, 6) == bits(cpsr0, 8, 6)]
+                for k, v in final.items():
+                    if k in USER_WRITABLE or k.startswith('cfg.') or ('fetch-abort' in events and k in ABORT_REGS):
+                        continue
+                    same.append(values_eq(v, init[k]))
+                took_ = [e for e in events if e != 'fetch-abort']
+                ob = eng.oblige('safe.user', '%s: User mode cannot change privileged state (stopped at a mock hook)' % tag,
+                                implies(mode0 == ST.USR, lor(bool(took_), land(*same))))
+                ob.props = ['C19']
+            ob = eng.oblige('frame.own', '%s: no write to an object outside the processor instance' % tag, not eng.foreign_writes,
+                            detail='; '.join(eng.foreign_writes[:4]))
+            ob.props = ['C20']
             return
         # ---- C10 range invariant on every core register, SPSR, PC
         rng = []
@@ -268,6 +288,19 @@ def make_unit(iset, cube_name, cube_pred, memarch='PMSA', nregions=1, props=('C1
                 belongs = lor(belongs, table_unpredictable(iset, instr, oplen, init, mem.init))
             ob = eng.oblige('decode.class', '%s: the word belongs to the architectural encoding of the selected class' % tag, belongs)
             ob.props = [dprop]
+            # an exception raised by the operation itself (Hyp trap, UNDEFINED in this mode/state) only where the operation's
+            # specification has one; data aborts depend on the abstract memory, SVC/SMC are the instruction's purpose
+            if took and all(e in ('take_hyp_trap_exception', 'take_undef_instr_exception') for e in took):
+                for r in rws:
+                    if r.op is None or r.opfields is not None:
+                        continue
+                    st0 = dict(init)
+                    st0['mem'] = mem.init
+                    st0['oracle.excl_pass'] = False
+                    _, s_unpred, s_undef = SS.spec_step(r, st0, instr, 'arm' if iset == 'arm' else 'thumb', oplen)
+                    ob = eng.oblige('post.exc', '%s: takes %s only where the architecture specifies an exception' % (tag, ','.join(took)),
+                                    lor(lnot(r.match(instr)), s_undef, s_unpred, unpred))
+                    ob.props = [r.family or fam]
         if rows and not events:
             dprop = 'C06' if iset == 'arm' else 'C07'
             want = 'arm' if iset == 'arm' else ('t16' if iset == 'thumb16' else 't32')
@@ -335,6 +368,12 @@ def make_unit(iset, cube_name, cube_pred, memarch='PMSA', nregions=1, props=('C1
                     else:
                         named.append((k, lor(skip, values_eq(v, exp[k]))))
                 named.append(('mem', lor(skip, sym.SymBool(mem.term == exp['mem']))))
+                # control flow (C04) as an obligation of its own: the final PC and instruction-set state
+                flow = [n_ for n_ in named if n_[0] == 'R.PC']
+                if sym.is_intlike(final['cpsr']):
+                    flow.append(('instruction set (CPSR.J,T)', lor(skip, values_eq(ST.iset(final['cpsr']), ST.iset(exp['cpsr'])))))
+                ob = eng.oblige_all('post.pc', '%s: final PC and instruction set == architectural (branch target / interworking / PC + length)' % tag, flow)
+                ob.props = ['C04', r.family or fam, dprop]
                 ob = eng.oblige_all('post', '%s: final state == architectural decode+operation (all leaves; frame)' % tag, named)
                 ob.props = [r.family or fam, dprop]
                 ob = eng.oblige('post.unpred', '%s: not executed normally where the architecture says UNDEFINED / takes an exception' % tag,
